@@ -107,7 +107,70 @@ static void scenario(int mode, int nsub, const int *kinds, int ps) {
     }
 }
 
+// two publishing threads (publish is documented MT-safe) against parked subscribers; main closes after both are done.
+// The global order of the three values is the schedule's choice: every all_values subscriber must see each value once,
+// 11 before 12, all subscribers in the same order, then end-of-stream.
+static void mt_scenario(int nsub, const int *kinds) {
+    int64_t *s = vrt_scratch();
+    {
+        auto pub = std::make_unique<cocls::publisher<int>>();
+        std::unique_ptr<cocls::subscriber<int>> subs[2];
+        for (int i = 0; i < nsub; i++) subs[i].reset(new cocls::subscriber<int>(*pub, cocls::subscribtion_type::all_values));
+        vstd::thread th[2], pa, pb;
+        for (int i = 0; i < nsub; i++) th[i] = vstd::thread(sub_thread, std::ref(*subs[i]), i, kinds[i], 0);
+        pa = vstd::thread([&] {
+            vrt_label("publisherA");
+            pub->publish(11);
+            pub->publish(12);
+        });
+        pb = vstd::thread([&] {
+            vrt_label("publisherB");
+            pub->publish(21);
+        });
+        pa.join();
+        pb.join();
+        pub->close();
+        vrt_label("main-join-subscribers");
+        for (int i = 0; i < nsub; i++) th[i].join();
+        for (int i = 0; i < nsub; i++) {
+            vrt_label("main-wait-subscriber-eos");
+            while (!s[S_DONE + i]) vrt_yield();
+        }
+        vrt_label("main");
+        for (int i = 0; i < nsub; i++) {
+            int64_t n = s[S_CNT + i];
+            VRT_CHECK(n == 3, n < 3 ? "pub/early-end-of-stream" : "pub/too-many-values", "subscriber %d received %ld of the 3 values published by two threads", i, (long)n);
+            int c11 = 0, c12 = 0, c21 = 0, pos11 = -1, pos12 = -1;
+            for (int k = 0; k < n; k++) {
+                long v = s[S_VAL + i * 10 + k];
+                if (v == 11) c11++, pos11 = k;
+                else if (v == 12) c12++, pos12 = k;
+                else if (v == 21) c21++;
+                else vrt_fail("pub/value-never-published", "subscriber %d received %ld", i, v);
+            }
+            VRT_CHECK(c11 == 1 && c12 == 1 && c21 == 1, "pub/duplicate-or-missing", "subscriber %d saw 11 x%d, 12 x%d, 21 x%d", i, c11, c12, c21);
+            VRT_CHECK(pos11 < pos12, "pub/duplicate-or-backwards", "subscriber %d received 12 before 11", i);
+            for (int k = 0; k < n; k++)
+                VRT_CHECK(s[S_VAL + i * 10 + k] == s[S_VAL + k], "pub/subscribers-disagree", "subscriber %d saw %ld at position %d, subscriber 0 saw %ld", i, (long)s[S_VAL + i * 10 + k], k, (long)s[S_VAL + k]);
+        }
+        vrt_outcome("first=%ld", (long)s[S_VAL]);
+        subs[0].reset();
+        subs[1].reset();
+    }
+}
+
 VRT_REGISTER(reg_pub) {
+    for (int a = 0; a < 2; a++) {
+        vrt::add(std::string("pubmt1_") + sk_names[a], [=] {
+            int k[2] = {a, 0};
+            mt_scenario(1, k);
+        });
+        for (int b = a; b < 2; b++)
+            vrt::add(std::string("pubmt2_") + sk_names[a] + "-" + sk_names[b], [=] {
+                int k[2] = {a, b};
+                mt_scenario(2, k);
+            });
+    }
     for (int mode = 0; mode < 3; mode++)
         for (int ps = 0; ps < PS_NK; ps++) {
             for (int a = 0; a < SK_NK; a++) {
